@@ -1,59 +1,110 @@
-"""Generated/Single.lean: how fit_single.single_function assembles its result (which routines, which sum)."""
+"""Generated/Single.lean: how fit_single.single_function assembles its result (which routines, which sum).
+
+single_function is read by symbolic execution (extractors/_norm_c20.py, which lists the normalisations N1-N8 it
+implies): one run per truth assignment of the flags the function branches on (`likelihood.is_mse`, `return_params`,
+`verbose`).  What is tabulated is the *value* returned on each path, in a normal form without local names:
+
+  <module>.<routine>[i]      i-th element of the result of the (only) call of that routine on the path
+  <module>.<routine>@k[i]    ... of its k-th call, when the routine is called more than once on the path
+  <module>.<routine>()       the whole result of the call
+  a + b + c                  the left-nested float sum ((a + b) + c), operands in source order
+  likelihood.run_sympify()   a method of a parameter: named by the parameter
+
+so renamed locals, `_` for unused results, tuple vs separate assignment, a result variable instead of two returns,
+`x if c else y`, `from m import f` vs `import m as g; g.f`, a straight-line same-module helper / closure (inlined, one level),
+re-wrapped calls, comments and print formatting give the same table.  The association and order of the sum are kept
+(floating point).  Shapes the reader does not cover (loops, try, a branch on a computed value, a tracked routine called
+inside a comprehension, ...) raise ExtractError: the committed table then stands in and props/c20.py ties it to the
+code by tracing the real routines inside the real single_function (FALLBACK['Single']).
+"""
 import ast
 import extract
 from extract import ExtractError, lstr
+from extractors import _norm_c20 as N
 
 extract.MODELLED += [("esr/fitting/fit_single.py", None, "single_function"), ("esr/fitting/fit_single.py", None, "fit_from_string")]
+
+# the routines whose order of execution is tabulated (normal-form names)
+TRACKED = ("esr.fitting.test_all.optimise_fun", "likelihood.run_sympify", "esr.fitting.test_all_Fisher.convert_params",
+           "esr.generation.generator.aifeyn_complexity")
+MSE, RP, VB = "likelihood.is_mse", "return_params", "verbose"
+
+
+def read(stage):
+    """-> dict(dl_terms, term_source, call_order, returns, returns_mse, routine_module)"""
+    tree = extract._parse(stage, "esr/fitting/fit_single.py")
+    fn = extract.find_def(tree, "single_function")
+    short = set(t.rsplit(".", 1)[-1] for t in TRACKED)
+    reader = N.Reader(tree, fn, strict=lambda name: name in TRACKED or name.rsplit(".", 1)[-1] in short)
+    atoms, paths = reader.paths()
+    unknown = [a for a in atoms if a not in (MSE, RP, VB)]
+    if unknown:
+        raise ExtractError("single_function branches on %s (only %s, %s, %s are understood)" % (", ".join(unknown), MSE, RP, VB))
+    if MSE not in atoms:
+        raise ExtractError("single_function does not branch on %s" % MSE)
+
+    def key(asg, with_verbose):
+        k = "mse=%d,params=%d" % (int(asg.get(MSE, False)), int(asg.get(RP, False)))
+        return k + (",verbose=%d" % int(asg.get(VB, False)) if with_verbose else "")
+
+    # every path assigns a subset of the atoms (an atom not reached on a path does not influence it)
+    rows = {}
+    for asg, val, calls, counts in paths:
+        if val[0] != "tuple":
+            raise ExtractError("single_function returns %s, not a tuple built in the function (conditions %r)" % (N.render(val, counts), asg))
+        rows.setdefault(key(asg, False), []).append((asg, val, [c for c in calls if c in TRACKED], counts))
+    returns, returns_mse, dls, orders = [], [], [], []
+    for k in sorted(rows):
+        group = rows[k]
+        texts = [[N.render(e, g[3]) for e in g[1][1]] for g in group]
+        dep = any(t != texts[0] for t in texts) or any(g[2] != group[0][2] for g in group)
+        for g, t in zip(group, texts):
+            name = key(g[0], True) if dep else k
+            (returns_mse if g[0].get(MSE, False) else returns).append((name, t))
+            if not g[0].get(MSE, False):
+                if len(g[1][1]) < 2:
+                    raise ExtractError("single_function returns fewer than two values on path %s" % name)
+                dls.append([N.render(x, g[3]) for x in N.sum_terms(g[1][1][1])])
+                orders.append(g[2])
+            if not dep:
+                break
+    if not returns:
+        raise ExtractError("single_function: no path with %s false" % MSE)
+    # a difference between paths is a fact about the code, not a reading problem: it goes into the table (every row of
+    # `returns` is covered by returned_DL_is_dlTerms; the marker below makes call_order fail)
+    order = list(orders[0]) if all(o == orders[0] for o in orders) else ["<differs between paths>"] + [" ; ".join(o) for o in orders]
+    src = []
+    for t in dls[0]:
+        if t.endswith("]") and "[" in t:
+            src.append((t[:t.rindex("[")], t[t.rindex("[") + 1:-1]))
+        elif t.endswith("()"):
+            src.append((t[:-2], "all"))
+        else:
+            src.append((t, "?"))
+    mods = []
+    for c in orders[0]:
+        m, f = c.rsplit(".", 1)
+        if (f, m) not in mods:
+            mods.append((f, m))
+    return dict(dl_terms=dls[0], term_source=src, call_order=order, returns=returns, returns_mse=returns_mse, routine_module=mods)
 
 
 @extract.extractor("Single")
 def gen(stage):
-    tree = extract._parse(stage, "esr/fitting/fit_single.py")
-    fn = extract.find_def(tree, "single_function")
-    imports = {}
-    for n in tree.body:
-        if isinstance(n, ast.ImportFrom):
-            for a in n.names:
-                imports[a.asname or a.name] = n.module
-        elif isinstance(n, ast.Import):
-            for a in n.names:
-                imports[a.asname or a.name.split(".")[-1]] = a.name
-    dl = None
-    calls = []
-    for n in ast.walk(fn):
-        if isinstance(n, ast.Assign) and len(n.targets) == 1 and ast.unparse(n.targets[0]) == "DL" and isinstance(n.value, ast.BinOp):
-            dl = n.value
-        if isinstance(n, ast.Call):
-            f = ast.unparse(n.func)
-            if f in ("optimise_fun", "convert_params", "generator.aifeyn_complexity", "likelihood.run_sympify"):
-                calls.append((n.lineno, f))
-    if dl is None:
-        raise ExtractError("single_function: `DL = ...` sum not found")
-
-    def terms(e):
-        if isinstance(e, ast.BinOp) and isinstance(e.op, ast.Add):
-            return terms(e.left) + terms(e.right)
-        if isinstance(e, ast.Name):
-            return [e.id]
-        raise ExtractError("single_function: DL is not a sum of names: %s" % ast.unparse(e))
-
-    ts = terms(dl)
-    # the returned tuple
-    rets = [ast.unparse(r.value) for r in ast.walk(fn) if isinstance(r, ast.Return) and r.value is not None]
-    # where the three terms come from
-    src = {}
-    for n in ast.walk(fn):
-        if isinstance(n, ast.Assign) and isinstance(n.value, ast.Call):
-            f = ast.unparse(n.value.func)
-            for t in n.targets:
-                for nm in ([e.id for e in t.elts if isinstance(e, ast.Name)] if isinstance(t, ast.Tuple) else [t.id] if isinstance(t, ast.Name) else []):
-                    src[nm] = f
+    r = read(stage)
+    pair = lambda a, b: "(%s, %s)" % (lstr(a), lstr(b))
+    row = lambda k, vs: "(%s, [%s])" % (lstr(k), ", ".join(lstr(v) for v in vs))
     t = extract.header("Single", ["esr/fitting/fit_single.py:single_function"])
-    t += "/-- the terms of `DL = ...` in source order -/\ndef dlTerms : List String := [%s]\n" % ", ".join(lstr(x) for x in ts)
-    t += "/-- routine whose result each term is (last assignment in the function) -/\ndef termSource : List (String × String) := [%s]\n" % ", ".join(
-        "(%s, %s)" % (lstr(x), lstr(src.get(x, "?"))) for x in ts)
-    t += "/-- module each routine is imported from -/\ndef routineModule : List (String × String) := [%s]\n" % ", ".join(
-        "(%s, %s)" % (lstr(k), lstr(imports.get(k.split(".")[0], "?"))) for k in ["optimise_fun", "convert_params", "generator"])
-    t += "def callOrder : List String := [%s]\n" % ", ".join(lstr(f) for _, f in sorted(calls))
-    t += "def returns : List String := [%s]\n" % ", ".join(lstr(r) for r in rets)
+    t += "/-- the terms of the returned description length (second returned value, likelihood with a description length), a left-nested sum in source order -/\n"
+    t += "def dlTerms : List String := [%s]\n" % ", ".join(lstr(x) for x in r["dl_terms"])
+    t += "/-- (routine, index in its result tuple / `all`) each term is -/\n"
+    t += "def termSource : List (String × String) := [%s]\n" % ", ".join(pair(a, b) for a, b in r["term_source"])
+    t += "/-- (routine, module or parameter it is reached through) for the routines of `callOrder` -/\n"
+    t += "def routineModule : List (String × String) := [%s]\n" % ", ".join(pair(a, b) for a, b in r["routine_module"])
+    t += "/-- the tracked routines in execution order (same on every path with a description length) -/\n"
+    t += "def callOrder : List String := [%s]\n" % ", ".join(lstr(f) for f in r["call_order"])
+    t += "/-- per path (flags the function branches on), the returned tuple, element by element -/\n"
+    t += "def returns : List (String × List String) := [%s]\n" % ",\n  ".join(row(k, v) for k, v in r["returns"])
+    t += "/-- the paths without a description length (`likelihood.is_mse`), not used by a theorem -/\n"
+    t += "def returnsMse : List (String × List String) := [%s]\n" % ",\n  ".join(row(k, v) for k, v in r["returns_mse"])
     return t + extract.footer("Single")
